@@ -232,7 +232,7 @@ func (t *InitType) Parameters() []px.Value {
 	}
 	ps := []px.Value{undef, t.initArgs}
 	if t.typ != nil {
-		ps[1] = t.typ
+		ps[0] = t.typ
 	}
 	return ps
 }
